@@ -22,6 +22,8 @@ type Env struct {
 	inPre   bool
 	depth   int
 	lastFacts []string
+	oldIsPre  bool // loop step/exit clauses: old() is the state at the loop head
+	entryMode bool
 	facts   *[]string // well-formedness facts about heap values read while evaluating (true of every Go heap)
 }
 
@@ -337,6 +339,12 @@ func (env *Env) eval(e *Expr) Term {
 		}
 		return mk(app("mk-slice", app("s.arr", x.S), app("+", app("s.off", x.S), lo), app("-", hi, lo), app("-", app("s.cap", x.S), lo)), SSlice).withType(x.T)
 	case "old":
+		if env.oldIsPre {
+			n := *env
+			n.cur = env.pre
+			n.inPre = true
+			return n.eval(e.Args[0])
+		}
 		if env.old == nil {
 			efail("old() not available here")
 		}
@@ -345,6 +353,16 @@ func (env *Env) eval(e *Expr) Term {
 		n.inPre = false
 		// old of parameters is the parameter itself (SSA parameters are immutable)
 		return n.eval(e.Args[0])
+	case "call":
+		if e.Name == "entry" && len(e.Args) == 1 {
+			// value at function entry (loop clauses)
+			n := *env
+			n.cur = env.vc.entryHeap
+			n.inPre = false
+			n.entryMode = true
+			return n.eval(e.Args[0])
+		}
+		return env.call(e)
 	case "pre":
 		if env.pre == nil {
 			efail("pre() not available here")
@@ -417,6 +435,7 @@ func (env *Env) eval(e *Expr) Term {
 		return mk(fmt.Sprintf("(exists ((%s %s)) %s)", v, s, and(append(qf, body.S)...)), SBool)
 	case "assert":
 		x := env.eval(e.Args[0])
+		_ = x
 		ty := env.resolveType(e.Type)
 		if x.Sort != SIface {
 			efail("type assertion on non-interface")
@@ -425,8 +444,6 @@ func (env *Env) eval(e *Expr) Term {
 			return mk(app("i.val", x.S), SInt).withType(ty)
 		}
 		return u.unbox(ty, app("i.val", x.S))
-	case "call":
-		return env.call(e)
 	case "type":
 		efail("type used as a value")
 	}
@@ -715,6 +732,12 @@ func (env *Env) call(e *Expr) Term {
 		if env.old == nil {
 			efail("%s needs an old state", e.Name)
 		}
+		if env.oldIsPre {
+			n := *env
+			n.old = env.pre
+			n.oldIsPre = false
+			env = &n
+		}
 		has, val, _, _ := vc.mapComps(mt)
 		hc, ho := app("select", vc.get(env.heap(), has), m.S), app("select", vc.get(env.old, has), m.S)
 		vcur, vo := app("select", vc.get(env.heap(), val), m.S), app("select", vc.get(env.old, val), m.S)
@@ -775,6 +798,12 @@ func (env *Env) call(e *Expr) Term {
 		x := argT(0)
 		if env.old == nil {
 			efail("fresh() needs an old state")
+		}
+		if env.oldIsPre {
+			n := *env
+			n.old = env.pre
+			n.oldIsPre = false
+			env = &n
 		}
 		vc.compDecl("$alloc", SInt)
 		r := x.S
